@@ -353,6 +353,42 @@ static void validate_pi_dag(dr_pi_dag *G, const char *what) {
 /* byte comparison; bytes in [mask_off, mask_off+mask_len) are ignored (the two in-memory pointers
    I and C of the string-table header are written to the file but are meaningless there: the
    reader overwrites them) */
+/* source positions: every file index must lie inside the string table, and a node of a converted
+   (shrunk) DAG must name the same source files as the node of the input DAG it was copied from */
+typedef struct { unsigned long long st, en, t1; long sl, el; int kind, worker; long idx; } nkey;
+static int nkey_cmp(const void *a_, const void *b_) {
+  const nkey *a = a_, *b = b_;
+#define C(f) if (a->f != b->f) return a->f < b->f ? -1 : 1
+  C(st); C(en); C(t1); C(sl); C(el); C(kind); C(worker);
+#undef C
+  return 0;
+}
+static nkey mk_key(dr_pi_dag_node *u, long idx) { nkey k = { u->info.start.t, u->info.end.t, u->info.t_1, u->info.start.pos.line, u->info.end.pos.line, (int)u->info.kind, u->info.worker, idx }; return k; }
+static void validate_strings(dr_pi_dag *G, const char *what, dr_pi_dag *orig) {
+  char m[300];
+  if (!G->S || G->S->n <= 0) { snprintf(m, sizeof m, "%s: empty string table", what); fail("C19-STRUCT", m); return; }
+  for (long i = 0; i < G->n; i++) {
+    dr_pi_dag_node *u = &G->T[i];
+    if (u->info.start.pos.file_idx < 0 || u->info.start.pos.file_idx >= G->S->n || u->info.end.pos.file_idx < 0 || u->info.end.pos.file_idx >= G->S->n) {
+      snprintf(m, sizeof m, "%s: node %ld refers to source-file index %ld/%ld but the string table has %ld entries", what, i, u->info.start.pos.file_idx, u->info.end.pos.file_idx, G->S->n); fail("C19-STRINGS", m); return; }
+  }
+  if (!orig) return;
+  nkey *K = malloc(sizeof(nkey) * (size_t)orig->n);
+  for (long i = 0; i < orig->n; i++) K[i] = mk_key(&orig->T[i], i);
+  qsort(K, (size_t)orig->n, sizeof(nkey), nkey_cmp);
+  for (long i = 0; i < G->n && !fail_cls; i++) {
+    nkey q = mk_key(&G->T[i], i);
+    nkey *hit = bsearch(&q, K, (size_t)orig->n, sizeof(nkey), nkey_cmp);
+    if (!hit) continue;
+    /* skip ambiguous keys */
+    if ((hit > K && nkey_cmp(hit - 1, &q) == 0) || (hit < K + orig->n - 1 && nkey_cmp(hit + 1, &q) == 0)) continue;
+    dr_pi_dag_node *o = &orig->T[hit->idx], *u = &G->T[i];
+    const char *os = orig->S->C + orig->S->I[o->info.start.pos.file_idx], *oe = orig->S->C + orig->S->I[o->info.end.pos.file_idx];
+    const char *us = G->S->C + G->S->I[u->info.start.pos.file_idx], *ue = G->S->C + G->S->I[u->info.end.pos.file_idx];
+    if (strcmp(os, us) || strcmp(oe, ue)) { snprintf(m, sizeof m, "%s: node %ld starts/ends in '%s'/'%s' but the node it was copied from in '%s'/'%s'", what, i, us, ue, os, oe); fail("C19-STRINGS", m); }
+  }
+  free(K);
+}
 static int files_equal(const char *a, const char *b, long mask_off, long mask_len) {
   FILE *fa = fopen(a, "rb"), *fb = fopen(b, "rb");
   if (!fa || !fb) { if (fa) fclose(fa); if (fb) fclose(fb); return 0; }
@@ -488,6 +524,7 @@ static void run(const long *p, mvsim_runcfg *cfg, mvsim_runstats *st) {
     dr_pi_dag *G = dr_read_dag(fdag);
     if (!G) { fail("C19-FILES", "dr_read_dag failed on the file just dumped"); break; }
     validate_pi_dag(G, "dumped DAG");
+    if (!fail_cls) validate_strings(G, "dumped DAG", 0);
     if (fail_cls) break;
     totals pit; totals_of_pi(G, &pit);
     if (k == 0) first = pit;
@@ -502,12 +539,21 @@ static void run(const long *p, mvsim_runcfg *cfg, mvsim_runstats *st) {
       snprintf(f2, sizeof f2, "%s.txt", p2);
       if (access(ftxt, R_OK) == 0 && !files_equal(ftxt, f2, 0, 0)) { fail("C19-ROUNDTRIP", "dump -> read -> text conversion differs from the text written at dump time"); break; } }
     /* shrinking copy (as dag2any --shrink) under a random target preserves the totals and stays well formed */
-    { dr_pi_dag G2[1]; long save_t = GS.opts.node_count_target, save_p = GS.opts.prune_threshold;
+    { dr_pi_dag G2[1];
+      /* conversion-time contraction is driven by collapse_max_count / collapse_max / uncollapse_min */
+      long save_c = GS.opts.collapse_max_count; dr_clock_t save_max = GS.opts.collapse_max, save_min = GS.opts.uncollapse_min;
       uint64_t h = (uint64_t)P[D_OPTSEED] + (uint64_t)k; h = mvsim_splitmix(&h);
-      GS.opts.node_count_target = 1 + (long)(h % 50); GS.opts.prune_threshold = 1 + (long)((h >> 10) % 20);
+      GS.opts.collapse_max_count = 0; GS.opts.collapse_max = 0; GS.opts.uncollapse_min = 0;
+      switch (h % 4) {
+        case 0: GS.opts.collapse_max_count = 2 + (long)((h >> 8) % 80); break;
+        case 1: GS.opts.collapse_max = 1ULL << 60; break;
+        case 2: GS.opts.collapse_max = 1 + (h >> 8) % 4000000; break;
+        default: GS.opts.uncollapse_min = 1 + (h >> 8) % 4000000; GS.opts.collapse_max = (h >> 40) & 1 ? 1ULL << 60 : 0; break;
+      }
       dr_copy_pi_dag(G2, G);
-      GS.opts.node_count_target = save_t; GS.opts.prune_threshold = save_p;
+      GS.opts.collapse_max_count = save_c; GS.opts.collapse_max = save_max; GS.opts.uncollapse_min = save_min;
       validate_pi_dag(G2, "shrunk copy");
+      if (!fail_cls) validate_strings(G2, "shrunk copy", G);
       if (fail_cls) break;
       totals t2; totals_of_pi(G2, &t2);
       if (!cmp_totals(&t2, &pit, 1, why, sizeof why)) { snprintf(msg, sizeof msg, "shrinking a %ld-node DAG to %ld nodes changed the totals: %s", G->n, G2->n, why); fail("C19-SHRINK", msg); break; }
